@@ -56,6 +56,7 @@ func runC09(c *core.Ctx) {
 	c09CollectOrder(c, pkg)
 	c09Swap(c, pkg)
 	c09Dao(c)
+	c09MatchScope(c)
 	c09Fanout(c, pkg)
 	c09Boundary(c, pkg)
 	c09Restore(c, pkg, "C09.restore")
